@@ -9,7 +9,7 @@ from pyvc.execu import Contract, LoopSpec, register
 
 from .model import (
     ASYN, BASE, ENV_MODIFIES, GK_ALL, GK_CALL, INITIAL_ID, MATCH, SYNC, W, env_effect, kw_state, locked,
-    mstate, others_kept, prefix_kept, qarr, qh, qt, rtc, wf_world, queue_items_valid, AsyncBinding,
+    mstate, others_kept, prefix_kept, qarr, qh, qt, rtc, wf_world, queue_items_valid, AsyncBinding, wf_registry,
 )
 
 
@@ -47,6 +47,7 @@ class ProcessingLoop(Contract):
     def pre(self, s, a):
         f = dict(wf_world(s))
         f["self-is-engine"] = a.self.e == W.ENG
+        f["registry-wf"] = wf_registry(s)
         # case (c): the caller has just put an item (an obligation at every call site, see C11)
         f["nonrtc-queue-nonempty"] = z3.Implies(z3.Not(rtc(s)), qh(s) < qt(s))
         f["queue-items-valid"] = queue_items_valid(s)
@@ -131,8 +132,9 @@ class ProcessingLoop(Contract):
                     z3.ForAll([k], z3.Implies(z3.And(k >= n0, k < m),
                                               z3.Select(s.g("trig_res"), k) == W.SENT)))))),
             "queue-items-valid": queue_items_valid(s),
-            "log-cursors": z3.And(s.g("ntrig") >= 0, s.g("ng") >= 0),
+            "log-cursors": z3.And(s.g("ntrig") >= 0, s.g("ng") >= 0, s.g("ncb") >= 0),
             "state-map-untouched": z3.And(others_kept("idict.has", s0, s, W.CACHE), others_kept("idict.val", s0, s, W.CACHE)),
+            "registry-wf": wf_registry(s),
         }
 
     @property
@@ -191,6 +193,7 @@ class Trigger(Contract):
         f = dict(wf_world(s))
         f.update(wf_class(s))
         f["self-is-engine"] = a.self.e == W.ENG
+        f["registry-wf"] = wf_registry(s)
         f["rtc-implies-lock-held"] = z3.Implies(rtc(s), locked(s))
         f.update(td_valid(s, a.trigger_data))
         return f
@@ -328,7 +331,8 @@ def queue_effect(s0, s):
         "queue:nonrtc-balanced": z3.Implies(z3.Not(rtc(s0)), z3.And(
             qt(s) - qh(s) == qt(s0) - qh(s0), qh(s) >= qh(s0), qh(s) <= qt(s))),
         "queue:items-valid": z3.Implies(queue_items_valid(s0), queue_items_valid(s)),
-        "log-cursors": z3.And(s.g("ntrig") >= 0, s.g("ng") >= 0),
+        "registry-stays-wf": z3.Implies(wf_registry(s0), wf_registry(s)),
+        "log-cursors": z3.And(s.g("ntrig") >= 0, s.g("ng") >= 0, s.g("ncb") >= s0.g("ncb")),
         "state-cache-only": z3.And(others_kept("idict.has", s0, s, W.CACHE), others_kept("idict.val", s0, s, W.CACHE)),
         "model-others-kept": others_kept("Model.state", s0, s, W.MODEL),
     }
@@ -404,6 +408,7 @@ class Activate(Contract):
     def pre(self, s, a):
         f = dict(wf_world(s))
         f["self-is-engine"] = a.self.e == W.ENG
+        f["registry-wf"] = wf_registry(s)
         f["rtc-implies-lock-held"] = z3.Implies(rtc(s), locked(s))
         f.update(td_valid(s, a.trigger_data))
         f["transition-wf"] = wf_transition(s, a.transition.e)
@@ -550,6 +555,7 @@ class InitialTransition(Contract):
     def pre(self, s, a):
         f = dict(wf_world(s))
         f["self-is-engine"] = a.self.e == W.ENG
+        f["registry-wf"] = wf_registry(s)
         return f
 
     def post(self, s0, s, a, r):
